@@ -64,6 +64,7 @@ Hypothesis Hsets : c_sets_ff c = true.
 Hypothesis Hfetch : c_tick_fetches c = true.
 Hypothesis Hrec : c_tok_recomputes c = true.
 Hypothesis Hctx : c_ctxdone c = false.
+Hypothesis Hnb : c_reset_nb c = true.
 
 Definition InvA (s : st) : Prop :=
   armed_at s <= now s /\
@@ -80,7 +81,7 @@ Ltac fin := repeat split; red_st; auto; try lia; try discriminate; try (unpark; 
             try (unparkH; try discriminate; try congruence; fail).
 
 Lemma send_tok_eq : forall s, send_tok c s = set_tok true s.
-Proof. intros s. unfold send_tok. rewrite Hcap. reflexivity. Qed.
+Proof. intros s. unfold send_tok. rewrite Hnb, Hcap. reflexivity. Qed.
 
 Lemma invA_step : forall s l s', InvA s -> step c s l = Some s' -> InvA s'.
 Proof.
@@ -346,11 +347,11 @@ End Good.
 Definition good (c : cfg) : Prop :=
   (forall e f z, select_arm (c_sw c) e f z = Some (expected_arm e f z)) /\
   (1 <=? c_cap c) = true /\ c_tick_empty c = TZero /\ c_tick_err c = TRetryInterval /\ c_tick_cmp c = OpGt /\
-  c_clears_ff c = true /\ c_sets_ff c = true /\ c_tick_fetches c = true /\ c_tok_recomputes c = true /\ c_ctxdone c = false.
+  c_clears_ff c = true /\ c_sets_ff c = true /\ c_tick_fetches c = true /\ c_tok_recomputes c = true /\ c_ctxdone c = false /\ c_reset_nb c = true.
 
 Lemma code_good : forall drain ri, good (code_cfg drain ri).
 Proof.
-  intros drain ri. unfold good, code_cfg. cbn [c_sw c_cap c_tick_empty c_tick_err c_tick_cmp c_clears_ff c_sets_ff c_tick_fetches c_tok_recomputes c_ctxdone].
+  intros drain ri. unfold good, code_cfg. cbn [c_sw c_cap c_tick_empty c_tick_err c_tick_cmp c_clears_ff c_sets_ff c_tick_fetches c_tok_recomputes c_ctxdone c_reset_nb].
   split; [intros [] [] []; reflexivity|]. repeat split; reflexivity.
 Qed.
 
@@ -365,7 +366,7 @@ Qed.
 
 Lemma inv_run : forall c, good c -> forall q0 tok0 tr s, run c (init q0 tok0) tr = Some s -> Inv c s.
 Proof.
-  intros c (G1 & G2 & G3 & G4 & G5 & G6 & G7 & G8 & G9 & G10) q0 tok0 tr s Hr.
+  intros c (G1 & G2 & G3 & G4 & G5 & G6 & G7 & G8 & G9 & G10 & G11) q0 tok0 tr s Hr.
   refine (run_inv c (Inv c) _ tr _ _ (inv_init c q0 tok0) Hr).
   intros s0 l s1 (A & B & C) Hs. split; [|split].
   - eapply invA_step; eauto.
@@ -388,8 +389,8 @@ Qed.
 Lemma nofault_clean : forall c, good c -> forall q0 tok0 tr s, nofault tr ->
   run c (init q0 tok0) tr = Some s -> ff s = false /\ (lpc s = PSelect -> clean s = true).
 Proof.
-  intros c (G1 & G2 & G3 & G4 & G5 & G6 & G7 & G8 & G9 & G10) q0 tok0 tr s Hn Hr.
-  exact (run_invF c G1 G2 G6 G8 G9 G10 tr _ _ Hn (invF_init q0 tok0) Hr).
+  intros c (G1 & G2 & G3 & G4 & G5 & G6 & G7 & G8 & G9 & G10 & G11) q0 tok0 tr s Hn Hr.
+  exact (run_invF c G1 G2 G6 G8 G9 G10 G11 tr _ _ Hn (invF_init q0 tok0) Hr).
 Qed.
 
 Lemma no_lost_wakeup_inv : forall drain ri q0 tok0 tr s, nofault tr ->
@@ -419,7 +420,7 @@ Lemma due_head_general : forall c, good c -> forall q0 tok0 tr s,
 Proof.
   intros c G q0 tok0 tr s Hr Hp Hc Hq Hdue.
   destruct (no_lost_wakeup_general c G _ _ _ _ Hr Hp Hc) as (Ha & Hat & Hd). specialize (Hd Hq).
-  destruct G as (G1 & G2 & G3 & G4 & G5 & G6 & G7 & G8 & G9 & G10).
+  destruct G as (G1 & G2 & G3 & G4 & G5 & G6 & G7 & G8 & G9 & G10 & G11).
   destruct Hp as (P1 & P2 & P3 & P4).
   assert (E1 : step c s TimerFire = Some (set_armed false (set_chan true s))).
   { cbn [step]. rewrite Ha. assert (dl s <=? now s = true) as -> by (apply Z.leb_le; lia). reflexivity. }
@@ -434,7 +435,7 @@ Proof.
     + intros l s3 Hl Hs. destruct l; cbn [loop_label] in Hl; try discriminate; cbn [step] in Hs; red_st_in Hs; try discriminate.
       exists po, valid, resched, pusho. split; [reflexivity|]. intros Hf. rewrite Hf, Ea2 in Hs.
       destruct (q s) as [|z l] eqn:Eq; [congruence|]. injection Hs as <-. unfold after_fetch.
-      destruct resched as [p'|]; [destruct (failed pusho)|]; destruct valid; destruct (c_fetch_resets c); rewrite ?(send_tok_eq c G2);
+      destruct resched as [p'|]; [destruct (failed pusho)|]; destruct valid; destruct (c_fetch_resets c); rewrite ?(send_tok_eq c G2 G11);
         unfold adv; red_st; (split; [reflexivity|]); intros; try discriminate; split; reflexivity.
     + intros po valid resched pusho. cbn [step]. red_st. destruct (failed po); [eexists; reflexivity|]. destruct (q sa); eexists; reflexivity.
 Qed.
@@ -480,7 +481,7 @@ Lemma steps_total : forall drain ri q0 tok0 tr s, let c := code_cfg drain ri in
 Proof.
   intros drain ri q0 tok0 tr s c Hr. subst c. pose proof (code_good drain ri) as G.
   destruct (inv_run _ G _ _ _ _ Hr) as ((_ & _ & I3 & _) & _).
-  destruct G as (G1 & G2 & G3 & G4 & G5 & G6 & G7 & G8 & G9 & G10).
+  destruct G as (G1 & G2 & G3 & G4 & G5 & G6 & G7 & G8 & G9 & G10 & G11).
   split; [intros q'; eexists; reflexivity|]. split.
   { intros dt Hdt. unfold can_step. cbn [step]. apply Z.leb_le in Hdt. rewrite Hdt. eexists; reflexivity. }
   destruct (lpc s) eqn:Epc.
@@ -559,8 +560,8 @@ Proof.
   intros drain ri q0 tok0 tr1 s1 tr2 s2 c Hr1 Hn Hr2 Hnarm Hp. pose proof (code_good drain ri) as G.
   assert (Hr : run c (init q0 tok0) (tr1 ++ tr2) = Some s2) by (rewrite run_app, Hr1; exact Hr2).
   apply (no_lost_wakeup_general _ G _ _ _ _ Hr Hp).
-  destruct G as (G1 & G2 & G3 & G4 & G5 & G6 & G7 & G8 & G9 & G10).
-  destruct (run_invR c G1 G2 G6 G8 G9 G10 (narm s1) tr2 _ _ Hn (invR_start s1) Hr2) as [_ R2].
+  destruct G as (G1 & G2 & G3 & G4 & G5 & G6 & G7 & G8 & G9 & G10 & G11).
+  destruct (run_invR c G1 G2 G6 G8 G9 G10 G11 (narm s1) tr2 _ _ Hn (invR_start s1) Hr2) as [_ R2].
   apply R2; [exact Hnarm|apply Hp].
 Qed.
 
@@ -705,3 +706,20 @@ Example ex_api_pause_remove_fails :
    api_run "PauseJob" true [Ok; Ok; Ok] = Some (mkres ["Get"; "Remove"; "Push"] None true) /\
    api_run "DeleteJob" false [Ok] = Some (mkres ["Remove"] None false))%string.
 Proof. vm_compute. repeat split. Qed.
+
+(* every API method that changes the queue ends a successful call with Reset() when the scheduler is started:
+   this is what justifies the label pair ApiMutate ; ApiToken of the loop system *)
+Definition mutating_api : list string := ["ScheduleJob"; "DeleteJob"; "PauseJob"; "ResumeJob"; "Clear"]%string.
+
+Lemma mutating_api_guarded : forallb (fun m => match assoc m api_reset_guarded with Some true => true | _ => false end) mutating_api = true.
+Proof. vm_compute. reflexivity. Qed.
+
+Lemma mutating_api_calls_send_token : forall m is_started outs calls,
+  In m mutating_api -> assoc m api_queue_calls = Some calls ->
+  (forall j, (j < List.length calls)%nat -> failed (nth j outs Ok) = false) ->
+  exists r, api_run m is_started outs = Some r /\ error r = None /\ performed r = calls /\ token r = is_started.
+Proof.
+  intros m st0 outs calls Hm Hc Hok. pose proof mutating_api_guarded as T. rewrite forallb_forall in T. specialize (T m Hm).
+  destruct (assoc m api_reset_guarded) as [[|]|] eqn:E; try discriminate.
+  exact (api_success_sends_token_iff_started m st0 outs calls Hc E Hok).
+Qed.
